@@ -41,8 +41,9 @@ def method_calls_on(fn, recv_name, method, nodes=None):
 
 def floor(rule, what, got, need):
     if got < need:
-        raise AnalysisError("rule %s enumerated %d %s, floor confirmed by reading is %d "
-                            "(anchor construct vanished or unrecognised shape)" % (rule, got, what, need))
+        from verif_sa.core import note_floor
+        note_floor("rule %s enumerated %d %s, floor confirmed by reading is %d "
+                   "(anchor construct vanished or unrecognised shape)" % (rule, got, what, need))
 
 
 def strip_not(test, pol):
